@@ -160,15 +160,16 @@ Definition bapply (b0 : base) (te : Z * ev) : base :=
           let v := if p_kind p =? kGet then val else p_val p in
           let lr := mkLR i (p_kind p) (p_inner p) rk rev v (p_key p) t in
           let b1 := b <| b_rets ::= fun m => aset m (p_gid p) lr |> <| b_done ::= cons op |> in
-          let b1 := if (io_hb_op (inst_of b1 i) =? op) && (io_hb_te (inst_of b1 i) <? 0)
-                    then upd_inst b1 i (fun x => x <| io_hb_te := t |>) else b1 in
-          (* a successful refresh gives the instance a new (token, revision) view *)
-          (* the heartbeat loop keeps the new revision only while its own term is still running *)
-          if (p_kind p =? kUpdate) && (p_inner p =? sHeartbeat) && (rk =? oOk)
-             && io_flag (inst_of b1 i) && (v_stok (vinfo_of b1 (p_val p)) =? io_tok (inst_of b1 i))
-             (* ... and only an answer that arrives before the loop's own time-out is looked at *)
-             && (t - p_t p <? hb_update_timeout (ic_H (cfg_of b1 i))) then
-            upd_inst b1 i (fun x => x <| io_views ::= cons (io_tok x, rev) |>)
+          (* only the answer to the refresh attempt the loop is waiting for is looked at (abandoned attempts report to nobody) *)
+          if (io_hb_op (inst_of b1 i) =? op) && (io_hb_te (inst_of b1 i) <? 0) then
+            let b2 := upd_inst b1 i (fun x => x <| io_hb_te := t |>) in
+            (* a successful refresh gives the instance a new (token, revision) view: the loop keeps the new revision only while its
+               own term is still running, and only an answer that arrives before the loop's own time-out is looked at *)
+            if (p_kind p =? kUpdate) && (p_inner p =? sHeartbeat) && (rk =? oOk)
+               && io_flag (inst_of b2 i) && (v_stok (vinfo_of b2 (p_val p)) =? io_tok (inst_of b2 i))
+               && (t - p_t p <? hb_update_timeout (ic_H (cfg_of b2 i))) then
+              upd_inst b2 i (fun x => x <| io_views ::= cons (io_tok x, rev) |>)
+            else b2
           else b1
       end
   | EFlag i fl cause root gid =>
